@@ -509,5 +509,82 @@ theorem java_eq_c_CS_Photo_Total (hk : KAllOk T Z) :
   · jeq_auto
 end phototot
 
+/-- three turns of a loop whose body may `return` -/
+theorem loopCtlM_3 {ρ σ : Type} (init : σ) (body : Int → σ → M (Ctl ρ σ)) :
+    loopCtlM 0 3 init body = (do
+      let c0 ← body 0 init
+      match c0 with
+      | Ctl.ret r => pure (Sum.inl r)
+      | Ctl.brk s => pure (Sum.inr s)
+      | Ctl.next s1 => do
+        let c1 ← body 1 s1
+        match c1 with
+        | Ctl.ret r => pure (Sum.inl r)
+        | Ctl.brk s => pure (Sum.inr s)
+        | Ctl.next s2 => do
+          let c2 ← body 2 s2
+          match c2 with
+          | Ctl.ret r => pure (Sum.inl r)
+          | Ctl.brk s => pure (Sum.inr s)
+          | Ctl.next s3 => pure (Sum.inr s3)) := by
+  show loopCtlGo 0 body (List.range 3) init = _
+  simp only [List.range_succ, List.range_zero, List.nil_append, List.cons_append, loopCtlGo]
+  rfl
+
+section totk
+variable (T : Tables ℝ) (Z : Int) (hZ : inI32 Z) (E : ℝ) (s : Slot) (hs : s.isFull = false)
+include hZ
+
+theorem java_nz_CS_Photo_Total : JNz (JGen.CS_Photo_Total (JTables.ofC T) Z E) := by
+  intro v h
+  unfold JGen.CS_Photo_Total at h
+  rcases hj : JGen.CSb_Photo_Total (JTables.ofC T) Z E with e | r
+  · rw [hj] at h; cases h
+  · have hr := java_pos_CSb_Photo_Total T Z hZ E r hj
+    have hz := java_rng_CSb_Photo_Total T Z hZ E hj
+    rw [hj] at h
+    jeq_normJ
+    simp (disch := omega) only [jbind_ok, jpure_eq_ok, jrd_vec, jdiv_real] at h
+    by_cases haw : T.AtomicWeight_arr Z.toNat = 0
+    · simp only [haw, ↓reduceIte] at h; cases h
+    · simp only [haw, ↓reduceIte] at h
+      cases h
+      exact div_ne_zero (mul_ne_zero hr.ne' (by norm_num)) haw
+
+include hs
+theorem java_eq_c_CS_Total_Kissel (hk : KAllOk T Z) (hN2 : inI32 (T.NE_Rayl Z.toNat)) (hN3 : inI32 (T.NE_Compt Z.toNat)) :
+    JRel (JGen.CS_Total_Kissel (JTables.ofC T) Z E) (Gen.CS_Total_Kissel T Z E s) s := by
+  jeq_start JGen.CS_Total_Kissel Gen.CS_Total_Kissel
+  simp only [loopCtlM_3]
+  jeq_simp
+  rcases (java_eq_c_CS_Photo_Total T Z hZ E s hs hk).cases with ⟨v, hc, hj⟩ | ⟨e, hc, hj⟩ | ⟨a, b, hc, hj⟩ | ⟨a, hc⟩
+  · have hne := java_nz_CS_Photo_Total T Z hZ E v hj
+    jeq_simp
+    jeq_use_pos (java_eq_c_CS_Rayl T Z hZ E s hs hN2), (java_pos_CS_Rayl T Z hZ E)
+    jeq_use_pos (java_eq_c_CS_Compt T Z hZ E s hs hN3), (java_pos_CS_Compt T Z hZ E)
+    jeq_auto
+  · jeq_auto
+  · jeq_auto
+  · jeq_auto
+
+omit hs in
+theorem java_rng_CS_Total_Kissel {v : ℝ} (h : JGen.CS_Total_Kissel (JTables.ofC T) Z E = .ok v) : ¬(Z < 1 ∨ Z > 120) := by
+  intro hz
+  unfold JGen.CS_Total_Kissel at h
+  jeq_normJ
+  simp only [hz, ↓reduceIte, jpure_eq_ok, jbind_ok, jthrow_eq_error] at h
+  cases h
+
+theorem java_eq_c_CSb_Total_Kissel (hk : KAllOk T Z) (hN2 : inI32 (T.NE_Rayl Z.toNat)) (hN3 : inI32 (T.NE_Compt Z.toNat)) :
+    JRel (JGen.CSb_Total_Kissel (JTables.ofC T) Z E) (Gen.CSb_Total_Kissel T Z E s) s := by
+  jeq_start JGen.CSb_Total_Kissel Gen.CSb_Total_Kissel
+  rcases (java_eq_c_CS_Total_Kissel T Z hZ E s hs hk hN2 hN3).cases with ⟨v, hc, hj⟩ | ⟨e, hc, hj⟩ | ⟨a, b, hc, hj⟩ | ⟨a, hc⟩
+  · have hr := java_rng_CS_Total_Kissel T Z hZ E hj
+    jeq_auto
+  · jeq_auto
+  · jeq_auto
+  · jeq_auto
+end totk
+
 end C19
 end Xrl
